@@ -87,6 +87,12 @@ EditTable(s) ==
   /\ content' = [content EXCEPT ![AmmoOf[s]] = content[AmmoOf[s]] + 1]
   /\ UNCHANGED <<zero, version, dirt>>
 
+\* the caller looks at the quantities of a shot in other units (<< re-labels the library-held objects in place) and switches
+\* the preferred units: nothing a computation may depend on changes (C13: display only; C07: explicit units ignore preferences)
+Redisplay(s) ==
+  /\ Step([a |-> "Redisplay", c |-> "", s |-> s, arg |-> "units", res |-> <<"Redisplay">>, ok |-> TRUE])
+  /\ UNCHANGED <<content, zero, version, dirt>>
+
 \* a shot whose drag table is malformed (a repeated Mach row): every computation with it raises, every time
 FireBadTable(c) ==
   /\ Step([a |-> "FireBadTable", c |-> c, s |-> "sbad", arg |-> "plain", res |-> <<"FireBadTable", c>>, ok |-> FALSE])
@@ -94,7 +100,7 @@ FireBadTable(c) ==
 
 Next == \E c \in Calcs, s \in Shots :
           \/ \E r \in Requests : Fire(c, s, r)
-          \/ FireRaises(c, s) \/ ZeroRaises(c, s) \/ Danger(c, s) \/ Build(s) \/ EditTable(s) \/ FireBadTable(c)
+          \/ FireRaises(c, s) \/ ZeroRaises(c, s) \/ Danger(c, s) \/ Build(s) \/ EditTable(s) \/ FireBadTable(c) \/ Redisplay(s)
           \/ \E d \in Distances : Zero(c, s, d)
 Spec == Init /\ [][Next]_vars
 
